@@ -32,7 +32,7 @@ type SrvCfg struct {
 	ManLimit    int64  `json:"manLimit"`  // 0: default
 	RefLimit    int64  `json:"refLimit"`  // 0: default
 	RateLimit   int    `json:"rateLimit"`
-	RefLimitCls string `json:"refLimitCls"` // class name of the referrers limit for the model: "unl" | "k1" | "k2"
+	RefLimitCls string `json:"refLimitCls"`        // class name of the referrers limit for the model: "unl" | "k1" | "k2"
 	GraceMs     int    `json:"graceMs,omitempty"`  // > 0: grace period in milliseconds (C12: session expiry, repository cache pruning)
 	GCFreqMs    int    `json:"gcFreqMs,omitempty"` // > 0: background collection every so many milliseconds (C12)
 }
